@@ -585,6 +585,7 @@ func waitGroupWait(fr *frame, a []value) value {
 			}
 		}
 	}
+	c.raceJoin()
 	return nil
 }
 
